@@ -345,6 +345,19 @@ macro_rules! impl_rank_small {
                 let mut past_ones = 0;
                 let mut upper_count = 0;
 
+                // The bits of the last word beyond the length of the bit vector
+                // are arbitrary (e.g., after a pop or a truncation) and must
+                // not be counted.
+                let residual = num_bits % 64;
+                let word = |i: usize| {
+                    let word = bits.as_ref()[i];
+                    if i + 1 == num_words && residual != 0 {
+                        word & ((1 << residual) - 1)
+                    } else {
+                        word
+                    }
+                };
+
                 for i in (0..num_words).step_by(Self::WORDS_PER_BLOCK) {
                     if i % (1usize << 26) == 0 {
                         upper_count = past_ones;
@@ -352,7 +365,7 @@ macro_rules! impl_rank_small {
                     }
                     let mut count = Block32Counters::<$NUM_U32S, $COUNTER_WIDTH>::default();
                     count.absolute = (past_ones - upper_count) as u32;
-                    past_ones += bits.as_ref()[i].count_ones() as usize;
+                    past_ones += word(i).count_ones() as usize;
 
                     for j in 1..Self::WORDS_PER_BLOCK {
                         #[allow(clippy::modulo_one)]
@@ -361,7 +374,7 @@ macro_rules! impl_rank_small {
                             count.set_rel(j / Self::WORDS_PER_SUBBLOCK, rel_count);
                         }
                         if i + j < num_words {
-                            past_ones += bits.as_ref()[i + j].count_ones() as usize;
+                            past_ones += word(i + j).count_ones() as usize;
                         }
                     }
 
